@@ -720,3 +720,63 @@ Proof.
   exists s1, (fst (iter n (sd_step grad proj step tol) (x, false))), s2, s12.
   repeat (split; [assumption|]). rewrite Hx2, Hx12, sd_resume. reflexivity.
 Qed.
+
+(* ===== a whole outer iteration of the generated adupdates programs on ONE heap, two operators =====
+   List slots are names ("duals#0", "duals#1", "tmp#k"); entering the inner loop body for index j binds
+   the generic names to the objects in the slots (Python: duals[j] evaluates to the object in slot j),
+   leaving it stores the binding back (a rebinding  duals[j] = ...  would change the slot).  Bounded
+   instance (two operators, both sharing patterns of tmp_rans); all values and interpretations symbolic.
+   The statement for every number of operators is adupdates_opt_refines_ref. *)
+Section GenADUP2.
+Variables (stepsize : R) (o0 o1 : @adop R) (junk : string -> Rvec).
+Hypothesis s0 : ad_inner_v o0 = None.
+Hypothesis s1 : ad_inner_v o1 = None.
+Definition opj (j : nat) : @adop R := match j with O => o0 | _ => o1 end.
+Definition slots (tmpname : nat -> string) (j : nat) : list (string * string) :=
+  let d := match j with O => "duals#0" | _ => "duals#1" end in
+  [("duals[i]", d); ("duals[j]", d); ("tmp_rans[L[j].range]", tmpname j)].
+Definition enter (tbl : list (string * string)) : list stmt := map (fun p => Alias (fst p) (snd p)) tbl.
+Definition leave (tbl : list (string * string)) : list stmt := map (fun p => Alias (snd p) (fst p)) tbl.
+Definition run_for (tmpname : nat -> string) (body : list stmt) (s : hst) : option hst :=
+  obind (exec (adup_I stepsize o0 junk) (enter (slots tmpname 0) ++ body ++ leave (slots tmpname 0))%list s)
+        (exec (adup_I stepsize o1 junk) (enter (slots tmpname 1) ++ body ++ leave (slots tmpname 1))%list).
+Definition run_outer (tmpname : nat -> string) (outer : list ostmt) (s : hst) : option hst :=
+  fold_left (fun acc c => obind acc (fun s =>
+    match c with
+    | OFor _ body => run_for tmpname body s
+    | OStmt c => exec (adup_I stepsize o0 junk) [c] s
+    end)) outer (Some s).
+Definition proj_state (s : option (@hst R)) :=
+  match s with
+  | Some s => Some (deref s "caller.x", deref s "duals#0", deref s "duals#1", h_log s)
+  | None => None
+  end.
+
+(* (a) both operators have the same range: ONE shared temporary *)
+Definition heap_shared (x d0 d1 t : Rvec) : hst :=
+  mk_hst [("x", 0%nat); ("caller.x", 0%nat); ("duals#0", 1%nat); ("duals#1", 2%nat); ("tmp#0", 3%nat)] [x; d0; d1; t] [].
+Lemma gen_adup2_shared x d0 d1 t :
+  ad_key o0 = 0%nat -> ad_key o1 = 0%nat ->
+  let '(xf, ds, _) := ad_opt_step stepsize [o0; o1] (x, [d0; d1], [t]) in
+  proj_state (run_outer (fun _ => "tmp#0") adupdates_outer (heap_shared x d0 d1 t))
+  = Some (Some xf, nth_error ds 0, nth_error ds 1, [xf])
+  /\ proj_state (run_outer (fun _ => "tmp#0") adupdates_simple_outer (heap_shared x d0 d1 t))
+     = Some (Some xf, nth_error ds 0, nth_error ds 1, []).
+Proof.
+  intros k0 k1. unfold ad_opt_step, ad_sweep_opt, ad_pre, ad_arg. rewrite k0, k1, s0, s1.
+  cbv [setnth getnth nth]. split; symexec.
+Qed.
+(* (b) different ranges: two temporaries *)
+Definition heap_two (x d0 d1 t0 t1 : Rvec) : hst :=
+  mk_hst [("x", 0%nat); ("caller.x", 0%nat); ("duals#0", 1%nat); ("duals#1", 2%nat); ("tmp#0", 3%nat); ("tmp#1", 4%nat)]
+         [x; d0; d1; t0; t1] [].
+Lemma gen_adup2_distinct x d0 d1 t0 t1 :
+  ad_key o0 = 0%nat -> ad_key o1 = 1%nat ->
+  let '(xf, ds, _) := ad_opt_step stepsize [o0; o1] (x, [d0; d1], [t0; t1]) in
+  proj_state (run_outer (fun j => match j with O => "tmp#0" | _ => "tmp#1" end) adupdates_outer (heap_two x d0 d1 t0 t1))
+  = Some (Some xf, nth_error ds 0, nth_error ds 1, [xf]).
+Proof.
+  intros k0 k1. unfold ad_opt_step, ad_sweep_opt, ad_pre, ad_arg. rewrite k0, k1, s0, s1.
+  cbv [setnth getnth nth]. symexec.
+Qed.
+End GenADUP2.
